@@ -68,7 +68,7 @@ def generate(rng, tier, n):
         else:
             t, st = gen_tree(rng, max_nodes=rng.choice([20, 50, 100]), max_depth=rng.choice([4, 6, 8]),
                              p_share=rng.choice([0.5, 0.8]), max_actions=rng.choice([2, 3, 4]))
-        if rng.random() < 0.15:
+        if rng.random() < 0.3:
             t2 = with_duplicate_action(rng, t)     # exact ties between two actions, in every iteration
             if t2 is not None:
                 t = t2
@@ -82,6 +82,10 @@ def generate(rng, tier, n):
         unit = None
         if rng.random() < 0.2:
             t, unit = tiny_unit(rng, t)
+            if rng.random() < 0.4:
+                from ..solvers import scale_payoffs
+                t = scale_payoffs(t, 2.0 ** -1040 / unit)      # payoffs in the subnormal range (totals below 2^-1024)
+                unit = 2.0 ** -1040
         cb = CaseBuilder(cid, t, {"stats": st, "preset": preset, "threads": threads, "unit": unit})
         cb.meta["runs"] = []
         for T in (BUDGETS if tier == "thorough" else rng.sample(BUDGETS[:6], 3) + rng.sample(BUDGETS[6:], 1)):
